@@ -628,6 +628,18 @@ def global_writes(repo, fi):
         if name not in local and q in repo.funcs:
             return 'function attribute'
         return None
+    # a mutable default that escapes (stored into an attribute / container, returned, yielded): every call that omits the
+    # argument shares the one object created at definition time
+    for n in walk_shallow(fi.node):
+        val = None
+        if isinstance(n, ast.Assign) and any(isinstance(t, (ast.Attribute, ast.Subscript)) for t in n.targets):
+            val = n.value
+        elif isinstance(n, (ast.Return, ast.Yield)) and n.value is not None:
+            val = n.value
+        elif isinstance(n, ast.Call) and isinstance(n.func, ast.Attribute) and n.func.attr in ('append', 'extend', 'add', 'insert', 'setdefault', 'update') and n.args:
+            val = n.args[-1]
+        if isinstance(val, ast.Name) and val.id in mutable_defaults and val.id not in {x.id for x in walk_shallow(fi.node) if isinstance(x, ast.Name) and isinstance(x.ctx, ast.Store)}:
+            out.append((n, 'mutable default argument %s escapes the call (stored / returned): shared by every call that omits it' % val.id))
     for n in walk_shallow(fi.node):
         tgts = []
         if isinstance(n, ast.Assign):
